@@ -189,7 +189,7 @@ func findVersionParser(p *Prog) (*ssa.Function, map[string]bool, string) {
 }
 
 func checkC03(p *Prog, rp *Report) {
-	rp.Explanation = "C03-ONE: Parse, UnmarshalText and UnmarshalControl all reach one parse function (call graph). C03-TABLE: that function is interpreted abstractly on a generated family of strings (every combination of 16 epoch shapes, 14 upstream shapes and 8 revision shapes, plus surrounding white space) and compared with a Policy 5.6.12 reference: accept/reject and, on acceptance, epoch, upstream and revision. C03-ALPHA: every byte value and six multi-byte runes probed inside the upstream and the revision part are accepted iff they are in the Policy alphabets. C03-RESET: parsing into a Version that already holds a value overwrites epoch, upstream and revision. C03-CODEC: MarshalText / MarshalControl return String(); UnmarshalText / UnmarshalControl accept exactly what Parse accepts, with the same result. C03-RENDER: decision table of String / StringWithoutEpoch (epoch iff > 0 or ':' in upstream; '-' and the revision iff the revision is non-empty or the upstream contains '-'). C03-ROUNDTRIP: Parse(String(Parse(s))) = Parse(s) for every accepted member of the family. C03-EPOCHWIDTH: Parse of the GOARCH=386 load, interpreted with 32 bit int/uint on epochs around 2^31 and 2^32, accepts an epoch only with its exact value."
+	rp.Explanation = "C03-ONE: Parse, UnmarshalText and UnmarshalControl all reach one parse function (call graph). C03-TABLE: that function is interpreted abstractly on a generated family of strings (every combination of 20 epoch shapes, 14 upstream shapes and 8 revision shapes, plus surrounding white space) and compared with a Policy 5.6.12 reference: accept/reject and, on acceptance, epoch, upstream and revision. C03-ALPHA: every byte value and six multi-byte runes probed inside the upstream and the revision part are accepted iff they are in the Policy alphabets. C03-RESET: parsing into a Version that already holds a value overwrites epoch, upstream and revision. C03-CODEC: MarshalText / MarshalControl return String(); UnmarshalText / UnmarshalControl accept exactly what Parse accepts, with the same result. C03-RENDER: decision table of String / StringWithoutEpoch (epoch iff > 0 or ':' in upstream; '-' and the revision iff the revision is non-empty or the upstream contains '-'). C03-ROUNDTRIP: Parse(String(Parse(s))) = Parse(s) for every accepted member of the family. C03-EPOCHWIDTH: Parse of the GOARCH=386 load, interpreted with 32 bit int/uint on epochs around 2^31 and 2^32, accepts an epoch only with its exact value."
 	rp.NotDecided = "strings outside the generated family (the family is built from the grammar's token classes and the positions the parser distinguishes: first colon, last hyphen, first byte of the upstream part)."
 	rp.Trusted = []string{"go/types, go/ssa", "contracts of strings.*, strconv.ParseInt, unicode.IsSpace/IsDigit, fmt.Sprintf(%d:%s)", "Policy §5.6.12 alphabets as written in c03.go"}
 
@@ -430,7 +430,7 @@ func c03Width(p *Prog, rp *Report) {
 // versionFamily: strings built from every combination of epoch part, upstream
 // part and revision part shapes, with and without surrounding white space.
 func versionFamily() []string {
-	epochs := []string{"", "0:", "1:", "12:", "01:", "010:", "08:", "0x10:", "0b1:", "1_0:", "-1:", "a:", "1a:", ":", "99999999999999999999:", "1 :"}
+	epochs := []string{"", "0:", "1:", "12:", "01:", "010:", "08:", "0x10:", "0b1:", "1_0:", "-1:", "-0:", "+0:", "+1:", "a:", "1a:", "1.0:", ":", "99999999999999999999:", "1 :"}
 	ups := []string{"1.0", "1", "0", "a1", "", ".1", "1:2", "1-2", "1-2-3", "1.0~rc1+b2", "1 0", "1_0", "1.0:", "1.A-z"}
 	revs := []string{"", "-1", "-", "-1.2~a+b", "-1:2", "-1_", "-0", "-1 "}
 	var out []string
@@ -582,7 +582,7 @@ func c03Table(p *Prog, rp *Report, parser *ssa.Function) {
 			rtp = append(rtp, fmt.Sprintf("%q parses to %s, renders as %q, which parses to %s", s, got, r, back))
 		}
 	}
-	fillProblems(tbl, "version.Parse", pos, tp, fmt.Sprintf("%d strings (every combination of 16 epoch shapes x 14 upstream shapes x 8 revision shapes, plus surrounding white space): %d accepted, verdict and parts equal the reference", len(fam), accepted))
+	fillProblems(tbl, "version.Parse", pos, tp, fmt.Sprintf("%d strings (every combination of 20 epoch shapes x 14 upstream shapes x 8 revision shapes, plus surrounding white space): %d accepted, verdict and parts equal the reference", len(fam), accepted))
 	fillProblems(round, "version.Version.String", p.Pos(strFn.Pos()), rtp, fmt.Sprintf("%d accepted strings: Parse(String(Parse(s))) = Parse(s)", accepted))
 	// ---- ALPHA: one probe per byte value and a few multi-byte runes, in the upstream and in the revision
 	var probes []string
